@@ -8,22 +8,22 @@ From PGF Require Import Base.Prelude Model.Fdr Model.Results Model.ProteinGroups
 
 (* two calls whose configuration objects agree on the competition's seen-set give the same result, whatever
    razor tables, PEP cutoff, rescue cutoff or placeholder groups earlier calls left behind *)
-Theorem C07_history_independent : forall me o a b l ka thr pis,
+Theorem C07_history_independent : forall me o a b l ka thr pc pis,
   ps_seen a = ps_seen b ->
-  snd (run me o a l ka thr pis) = snd (run me o b l ka thr pis).
+  snd (run me o a l ka thr pc pis) = snd (run me o b l ka thr pc pis).
 Proof. exact run_history_independent. Qed.
 Print Assumptions C07_history_independent.
 
 (* every call leaves the seen-set empty (also when it raises) *)
-Theorem C07_seen_reset : forall me o a l ka thr pis,
-  ps_seen a = [] -> ps_seen (fst (run me o a l ka thr pis)) = [].
+Theorem C07_seen_reset : forall me o a l ka thr pc pis,
+  ps_seen a = [] -> ps_seen (fst (run me o a l ka thr pc pis)) = [].
 Proof. exact run_seen_reset. Qed.
 Print Assumptions C07_seen_reset.
 
 (* hence a call after ANY sequence of earlier calls on the same configuration object - on the same or on
    different inputs, failing or not - returns exactly what a fresh configuration returns *)
-Theorem C07_call_after_any_history : forall me h o l ka thr pis,
-  snd (run me o (after_history me h) l ka thr pis) = snd (run me o fresh l ka thr pis).
+Theorem C07_call_after_any_history : forall me h o l ka thr pc pis,
+  snd (run me o (after_history me h) l ka thr pc pis) = snd (run me o fresh l ka thr pc pis).
 Proof. exact call_after_any_history. Qed.
 Print Assumptions C07_call_after_any_history.
 
@@ -38,9 +38,9 @@ Print Assumptions C07_razor_tables_unread_without_razor.
 (* non-vacuity: a history exists and leaves a state different from the fresh one *)
 Example C07_witness :
   let me := {| m_picked := PickedGroup; m_grouping := GSubset; m_score := SBestPEP; m_razor := true; m_shared := false |} in
-  let o := {| o_score := fun _ => (1#1)%Q; o_cutoff := fun _ => (1#1)%Q; o_pow10neg := fun _ => (1#1)%Q;
+  let o := {| o_score := fun _ => (1#1)%Q; o_cutoff := fun _ _ => (1#1)%Q; o_pow10neg := fun _ => (1#1)%Q;
               o_md5 := fun p => p; o_split := fun _ => [] |} in
-  let c := {| c_l := [(s2l "AAAK", ((1#100)%Q, [s2l "P1"]))]; c_ka := false; c_thr := (1#100)%Q;
+  let c := {| c_l := [(s2l "AAAK", ((1#100)%Q, [s2l "P1"]))]; c_ka := false; c_thr := (1#100)%Q; c_pc := (1#100)%Q;
               c_pis := [[0]; [0]]; c_o := o |} in
   ps_counts (after_history me [c]) <> ps_counts fresh /\ ps_seen (after_history me [c]) = [].
 Proof. split; [vm_compute; discriminate | vm_compute; reflexivity]. Qed.
